@@ -380,6 +380,90 @@ def hist_key(h, i):
             f"template={HIST_FAMS[i % len(HIST_FAMS)]} gmode={(i // 3) % 3}")
 
 
+def _sq(x, a, b):
+    return a + b * x ** 2
+
+
+def _inv(x, a, b):
+    return a + b * x ** -1
+
+
+def narrow_given(gkind):
+    """(given in the narrow type, the same values as python floats)"""
+    vals = [100, 200, 300]
+    if gkind == "intlist":
+        return list(vals), [float(v) for v in vals]
+    if gkind == "int16array":
+        return np.array(vals, dtype=np.int16), [float(v) for v in vals]
+    if gkind == "int64array":
+        return np.array(vals, dtype=np.int64), [float(v) for v in vals]
+    if gkind == "float16array":
+        return np.array(vals, dtype=np.float16), [float(v) for v in vals]
+    if gkind == "int16scalar":
+        return np.int16(300), [300.0]
+    return np.int64(300), [300.0]
+
+
+def conddtype_record(vc, rid, case, seed=0):
+    fam, gkind, fn, method = case["fam"], case["gkind"], case["fn"], case["method"]
+    names = D.NAMES[fam]
+    rec = dict(id=rid, kind="conddtype", fam=fam, gkind=gkind, fn=fn, method=method, exc="", shapeok=True,
+               tplrel=0, vecrel=0, ncmp=0)
+    worst = dict(tpl=0.0, vec=0.0)
+    rs = 555 + seed
+    with warnings.catch_warnings(), np.errstate(all="ignore"):
+        warnings.simplefilter("ignore")
+        try:
+            S = D.STORED[fam]
+            deps, coef = {}, {}
+            for k, n in enumerate(names):
+                a, b = S[n], (1e-6 * (k + 1) * S[n] if fn == "sq" else S[n])
+                f = vc.DependenceFunction(_sq if fn == "sq" else _inv)
+                f.parameters = {"a": a, "b": b}
+                deps[n], coef[n] = f, (a, b)
+            cond = vc.distributions.ConditionalDistribution(D.build(vc, fam), deps)
+            g, gl = narrow_given(gkind)
+            ref = lambda n, gi: coef[n][0] + coef[n][1] * (gi * gi if fn == "sq" else 1.0 / gi)
+            refpar = [{n: ref(n, gi) for n in names} for gi in gl]
+            vec = np.ndim(g) > 0 or isinstance(g, list)
+            xs = (PV if method == "icdf" else XV)[:len(gl)]
+            if method == "draw_sample":
+                res = cond.draw_sample(3, g, random_state=rs)
+                if vec:
+                    want = D.build(vc, fam).draw_sample(3, **{n: np.array([p[n] for p in refpar]) for n in names},
+                                                       random_state=rs)
+                else:
+                    want = D.build(vc, fam, refpar[0]).draw_sample(3, random_state=rs)
+                rec["shapeok"] = np.shape(res) == ((3, len(gl)) if vec else (3,))
+                _, shp, rel = D.compare(res, want)
+                worst["tpl"] = rel if shp else float("inf")
+                rec["ncmp"] = int(np.size(res))
+            else:
+                x = np.array(xs) if vec else xs[0]
+                fnc = getattr(cond, method)
+                res = np.asarray(fnc(x, g), dtype=float)
+                rec["shapeok"] = res.shape == ((len(gl),) if vec else ())
+                resf = res.reshape(-1)
+                for i, gi in enumerate(gl):
+                    if i >= resf.size:
+                        break
+                    tv = getattr(D.build(vc, fam, refpar[i]), method)(xs[i])
+                    _, shp, rel = D.compare(resf[i], tv)
+                    worst["tpl"] = max(worst["tpl"], rel if shp else float("inf"))
+                    one = g[i] if vec else g          # one element of the container, in its own type
+                    _, shp, rel = D.compare(resf[i], fnc(xs[i], one))
+                    worst["vec"] = max(worst["vec"], rel if shp else float("inf"))
+                    rec["ncmp"] += 2
+        except Exception as e:  # noqa
+            rec["exc"] = f"{type(e).__name__}: {e}"[:160]
+    rec.update(tplrel=Qc(worst["tpl"], 1e15, 0, BIG), vecrel=Qc(worst["vec"], 1e15, 0, BIG))
+    return rec
+
+
+def dtype_key(c):
+    return f"{c['fam']} {c['method']} given={c['gkind']} dependence={'a+b*x**2' if c['fn'] == 'sq' else 'a+b*x**-1'}"
+
+
 def key_of(c):
     return f"{c['fam']} {c['method']} dependent={'+'.join(c['D'])} chain={c['chain']} shape={c['shape']}"
 
@@ -387,13 +471,14 @@ def key_of(c):
 QUICK_INT_CHAINS = ("plain", "const")      # = QuickIntChains of spec/ParamRoutingOps.tla
 
 
-def judge(ctx, vc, cases, summary=True, variants=(0,), hists=()):
+def judge(ctx, vc, cases, summary=True, variants=(0,), hists=(), dcases=()):
     part = [v for v in variants if v in (-1, -2) and ctx.quick and summary]
     cases = [dict(c, variant=c.get("variant", v)) for v in variants for c in cases
              if not (v in part and c["chain"] not in QUICK_INT_CHAINS)]
     recs = [cond_record(vc, i + 1, c, ctx.seed, c["variant"]) for i, c in enumerate(cases)]
     hrecs = [condhist_record(vc, len(recs) + i + 1, h, i) for i, h in enumerate(hists)]
-    allrecs = recs + hrecs
+    drecs = [conddtype_record(vc, len(recs) + len(hrecs) + i + 1, c, ctx.seed) for i, c in enumerate(dcases)]
+    allrecs = recs + hrecs + drecs
     if summary:
         allrecs.append(dict(id=len(allrecs) + 1, kind="summary", fullreps=len(variants) - len(part),
                             partreps=len(part)))
@@ -410,6 +495,11 @@ def judge(ctx, vc, cases, summary=True, variants=(0,), hists=()):
             ctx.violation(clause, hist_key(h, i),
                           f"exc={r['exc']!r} tplrel={r['tplrel']}e-15 parrel={r['parrel']}e-15 "
                           f"first stale step {r['badstep']}", replay=dict(kind="condhist", case=h, index=i))
+    for c, r in zip(dcases, drecs):
+        ctx.case("conddtype " + dtype_key(c), nontrivial=r["exc"] == "")
+        for clause in failing.get(r["id"], []):
+            ctx.violation(clause, dtype_key(c), f"exc={r['exc']!r} tplrel={r['tplrel']}e-15 vecrel={r['vecrel']}e-15 "
+                          f"shapeok={r['shapeok']}", replay=dict(kind="conddtype", case=c))
     if summary and failing.get(allrecs[-1]["id"]):
         raise Machinery(f"coverage clauses rejected: {failing[allrecs[-1]['id']]}")
     ctx.log(f"{len(recs)} conditional executions, {len(hrecs)} chained-function histories judged, "
@@ -487,7 +577,10 @@ def run(ctx):
     cases = ctx.generate("ParamRouting", "Gen_ParamRouting_cond.cfg")
     hists = (ctx.generate("ParamRoutingMemo", "Gen_ParamRoutingMemo_d1.cfg")
              + ctx.generate("ParamRoutingMemo", "Gen_ParamRoutingMemo_d2.cfg"))
-    cases, recs, failing = judge(ctx, vc, cases, variants=ctx.pick((0, -1, -2), (0, -1, -2, 1, 2, 3)), hists=hists)
+    dcases = ctx.generate("ParamRoutingDtypeGen", "Gen_ParamRoutingDtype.cfg")
+    cases, recs, failing = judge(ctx, vc, cases, variants=ctx.pick((0, -1, -2), (0, -1, -2, 1, 2, 3)), hists=hists,
+                                 dcases=dcases)
+    ctx.notes["narrow_dtype_given_cases"] = len(dcases)
     ctx.notes["chained_function_histories"] = len(hists)
     good = next((r for r in recs if r["id"] not in failing and r["shape"] == "vv" and r["chain"] == "chain2"), None)
     if good is not None:
@@ -509,6 +602,13 @@ def run(ctx):
 def replay(ctx, case):
     vc = import_virocon()
     c = case["case"]
+    if c.get("kind") == "conddtype":
+        r = conddtype_record(vc, 1, c["case"], ctx.seed)
+        failing = ctx.validate("Trace_C08", "Trace_C08.cfg", [r])
+        ctx.case(dtype_key(c["case"]))
+        for clause in failing.get(1, []):
+            ctx.violation(clause, dtype_key(c["case"]), f"exc={r['exc']!r} tplrel={r['tplrel']}", replay=c)
+        return
     if c.get("kind") == "condhist":
         r = condhist_record(vc, 1, c["case"], c["index"])
         failing = ctx.validate("Trace_C08", "Trace_C08.cfg", [r])
